@@ -2,10 +2,12 @@ mod driver;
 mod c08;
 mod c09;
 mod c11;
+mod c12;
 mod gql;
 mod c13;
 mod c14;
 mod c15;
+mod c16;
 mod c17;
 mod c26;
 mod tsx;
@@ -34,8 +36,10 @@ fn main() {
         "C13" => std::process::exit(c13::main(&args)),
         "C09" => std::process::exit(c09::main(&args)),
         "C11" => std::process::exit(c11::main(&args)),
+        "C12" => std::process::exit(c12::main(&args)),
         "C14" => std::process::exit(c14::main(&args)),
         "C15" => std::process::exit(c15::main(&args)),
+        "C16" => std::process::exit(c16::main(&args)),
         "C17" => std::process::exit(c17::main(&args)),
         "C26" => std::process::exit(c26::main(&args)),
         "show" => {
